@@ -843,12 +843,20 @@ class Surface:
         params['dy'] = dy
 
         def FFp(x, y):
-            r, t = cart_to_polar(x, y, vec_to_grid=False)
             c, k, dx, dy = params['c'], params['k'], params['dx'], params['dy']
-            z = off_axis_conic_sag(c, k, r, t, dx=dx, dy=dy)
-            dr, dt = off_axis_conic_der(c, k, r, t, dx=dx, dy=dy)
-            ddx, ddy = surface_normal_from_cylindrical_derivatives(dr, dt, r, t)
-            return z, ddx, ddy
+            if dy != 0 and dx != 0:
+                raise ValueError('only one of dx/dy may be nonzero')
+
+            # the off-axis section is the parent conic seen from a shifted origin.
+            # In the parent's Cartesian coordinates the gradient is c*(x,y)/phi,
+            # which has no singularity at the center of the section (r=0), where
+            # the polar derivatives cannot provide the azimuthal term dt/r
+            xp = x + dx
+            yp = y + dy
+            rsq = xp * xp + yp * yp
+            phi = phi_spheroid(c, k, rsq)
+            z = conic_sag(c, k, rsq, phi=phi)
+            return z, c * xp / phi, c * yp / phi
 
         return cls(typ=typ, P=P, n=n, FFp=FFp, R=R, params=params, bounding=bounding)
 
